@@ -642,6 +642,32 @@ func numericCases(thorough bool) (out []numericCase) {
 			}
 		}
 	}
+	// the thresholds themselves, to the last fraction digit: count.fraction = B*r/10^9 exactly (nine fraction digits,
+	// the last one also one down and one up) for frame and tick counts
+	exact := func(r int64) (out []string) {
+		for _, bexp := range []uint{31, 32, 53, 63, 64} {
+			t := new(big.Int).Mul(new(big.Int).Lsh(big.NewInt(1), bexp), big.NewInt(r))
+			q, rem := new(big.Int).QuoRem(t, big.NewInt(1000000000), new(big.Int))
+			for d := int64(-1); d <= 1; d++ {
+				f := rem.Int64() + d
+				if f < 0 || f > 999999999 {
+					continue
+				}
+				out = append(out, fmt.Sprintf("%s.%09d", q.String(), f))
+			}
+		}
+		return
+	}
+	for _, r := range frameRates {
+		for _, v := range exact(r) {
+			out = append(out, numericCase{"ttml", ttmlDoc(fmt.Sprintf(` ttp:frameRate="%d"`, r), "end", v+"f"), fmt.Sprintf("TTML frameRate %d end=%sf", r, v)})
+		}
+	}
+	for _, r := range append(append([]int64{}, tickRates...), 90000) {
+		for _, v := range exact(r) {
+			out = append(out, numericCase{"ttml", ttmlDoc(fmt.Sprintf(` ttp:tickRate="%d"`, r), "end", v+"t"), fmt.Sprintf("TTML tickRate %d end=%st", r, v)})
+		}
+	}
 	nums := boundaryNumbers([]int64{1})
 	for _, n := range nums {
 		// the rates themselves, and clock-time fields
@@ -1240,7 +1266,7 @@ func init() {
 		ID: "C08", Level: "exploration",
 		Rule: "readers: three exhaustively enumerated input families fed to the reader of their format (and across formats, and through the extension-dispatching opener): (1) all words of length <=L over a per-format alphabet of 12-13 lexemes, (2) the full single-mutation ball around every corpus document (every prefix, every single-byte deletion, every single-byte replacement by each of 12 bytes, every line-boundary splice of two same-format documents), (3) structured binary variations (STL GSI fields, DFC/DSC/CCT strings, every byte value at TTI text positions and header bytes, diacritic-led byte pairs; TS families contributed by the teletext encoder); writers: a nil-lattice of the public types explored within B deviations (every optional pointer/map independently present, nil or odd; 11 text atoms; 5 time atoms) to all five writers (TTML x 3 indents). Oracle: no panic (recover at the public entry point; a panic inside the third-party demuxer is excluded) and steps executed in package astisub <= 50000 + 400*len(input) (statement-level step counter of the instrumented build; no wall-clock oracle), also on scaled inputs of 2^k cues; distinct = (reader, input bytes) / (writer, lattice point)",
 		Scope: map[core.Tier]string{
-			core.Quick:    "token words L<=5 (cross-format L<=3); mutation ball around all corpus documents; STL structured families; scaled inputs up to 4096 cues and, inside one cue, up to 4096 lines / tagged runs / header lines; teletext page x PID option values (17 x 11) on every sample stream; writer lattice B=2; every string field of the metadata at 22 lengths (0..1024 bytes, around 8/16/32/64/576) in ASCII and two-byte characters; plain lists of 255..100001 cues (12 counts around digit-count and power-of-two boundaries) to every writer; numeric boundary product (every number slot of a template per text format x small values, powers of two and ten, thresholds B*r/S +-1 for B in {2^31,2^32,2^53,2^63,2^64}, S in {1,10^3,10^6,10^9,60x10^9,3600x10^9}, r the frame / tick rates, whole and with 3 fractions); scaled documents also with CR LF and CR line ends",
+			core.Quick:    "token words L<=5 (cross-format L<=3); mutation ball around all corpus documents; STL structured families; scaled inputs up to 4096 cues and, inside one cue, up to 4096 lines / tagged runs / header lines; teletext page x PID option values (17 x 11) on every sample stream; writer lattice B=2; every string field of the metadata at 22 lengths (0..1024 bytes, around 8/16/32/64/576) in ASCII and two-byte characters; plain lists of 255..100001 cues (12 counts around digit-count and power-of-two boundaries) to every writer; numeric boundary product (every number slot of a template per text format x small values, powers of two and ten, thresholds B*r/S +-1 for B in {2^31,2^32,2^53,2^63,2^64}, S in {1,10^3,10^6,10^9,60x10^9,3600x10^9}, r the frame / tick rates, whole and with 3 fractions, and for frame / tick counts the exact thresholds B*r/10^9 to nine fraction digits +-1 in the last); scaled documents also with CR LF and CR line ends",
 			core.Thorough: "token words L<=6 (cross-format L<=4); writer lattice B=3; plain lists up to 1000000 cues",
 		},
 		Assumptions: []string{"Go toolchain and standard library", "steps inside dependencies (bufio, encoding/xml, x/net/html, astits) are not counted: their loops are bounded by the input length", "instrumented build = plain build with inert hooks (validated in setup)"},
